@@ -75,6 +75,10 @@ func (c *Ctx) c16FailuresTravel() {
 		c.errOverwrittenRule("Y15", f)
 	}
 	c.Extra["functions_reached_by_fetch_and_store"] = len(fns)
+	// Y16: Fetch prepares its destination with CleanDir (and IsEmpty): a destination that cannot be examined is not a
+	// clean one — the new version would be unpacked over what is there and the mixed tree reported as a success.
+	c.rule("Y16", "for the functions Fetch/Store can reach: "+absentOnlyWhenAbsentText, 2)
+	c.c04AbsentOnlyWhenAbsent("Y16", func(f *ssa.Function) bool { return R[f] })
 }
 
 // c16SideFile (Y8): "a Store that reports success makes its version the one that Fetches return … even if
